@@ -51,10 +51,23 @@ func (f PicklerFunc) Pickle(x starlark.Value) (module, name string, args starlar
 	return f(x)
 }
 
+// A RecursivePickler is a Pickler that also supports values that refer to themselves through
+// their own arguments (e.g. a recursive function, which is one of its own globals). Such a value
+// cannot be memoized before its arguments have been encoded, so without this interface encoding it
+// never terminates.
+type RecursivePickler interface {
+	Pickler
+
+	// PickleRecursive is called instead of Pickle when x is encountered again while its own
+	// arguments are still being encoded. The result must not refer to x.
+	PickleRecursive(x starlark.Value) (module, name string, args starlark.Tuple, err error)
+}
+
 // An Encoder encodes values to an underlying Writer.
 type Encoder struct {
 	w       writer
 	memo    map[starlark.Value]int
+	active  map[starlark.Value]struct{} // values whose pickled arguments are being encoded
 	pickler Pickler
 }
 
@@ -64,6 +77,7 @@ func NewEncoder(w io.Writer, pickler Pickler) *Encoder {
 	return &Encoder{
 		w:       writer{w},
 		memo:    map[starlark.Value]int{},
+		active:  map[starlark.Value]struct{}{},
 		pickler: pickler,
 	}
 }
@@ -218,13 +232,30 @@ func (e *Encoder) encode(x starlark.Value) {
 
 func (e *Encoder) encodeComplex(x starlark.Value) {
 	if e.pickler != nil {
-		module, name, args, err := e.pickler.Pickle(x)
+		pickle, recursive := e.pickler.Pickle, false
+		if reflect.TypeOf(x).Comparable() {
+			if _, ok := e.active[x]; ok {
+				if rp, ok := e.pickler.(RecursivePickler); ok {
+					pickle, recursive = rp.PickleRecursive, true
+				}
+			}
+		}
+
+		module, name, args, err := pickle(x)
 		switch err {
 		case nil:
 			e.encodeString(opSHORT_BINUNICODE, opBINUNICODE, module)
 			e.encodeString(opSHORT_BINUNICODE, opBINUNICODE, name)
 			e.w.WriteByte(opSTACK_GLOBAL)
+			if recursive || !reflect.TypeOf(x).Comparable() {
+				e.encode(args)
+				e.w.WriteByte(opNEWOBJ)
+				return
+			}
+
+			e.active[x] = struct{}{}
 			e.encode(args)
+			delete(e.active, x)
 			e.w.WriteByte(opNEWOBJ)
 
 			e.memoize(x)
